@@ -74,7 +74,9 @@ def specState (T : ZTable) (s : SState) : String :=
   "|chk=" ++ b2s (Spec.inCheck p.board p.side) ++ "|mate=" ++ b2s (Spec.isMate p) ++ "|stale=" ++ b2s (Spec.isStalemate p) ++
   "|rep=" ++ b2s (decide (1 ≤ e)) ++ "|three=" ++ b2s (decide (2 ≤ e)) ++ "|r50=" ++ b2s r50 ++
   "|mat=" ++ b2s mat ++ "|draw=" ++ b2s (r50 || decide (2 ≤ e) || !mat) ++
-  "|poly=" ++ hex16 (Spec.polyKey p) ++ "|hist=" ++ toString (s.past.length + 1) ++ "|sync=ok"
+  "|poly=" ++ hex16 (Spec.polyKey p) ++ "|hist=" ++ toString (s.past.length + 1) ++
+  -- the standing hypothesis of the C02 theorem (StepOK of every legal move) evaluated here:
+  "|sync=" ++ (if specHypothesesHold p then "ok" else "hypotheses-fail")
 
 def insertSorted (x : String × Nat × String) : List (String × Nat × String) → List (String × Nat × String)
   | [] => [x]
@@ -100,9 +102,7 @@ def modelMoves (p : Position) (detail : Bool) : String :=
     rows.foldl (fun acc r => acc ++ " " ++ r.2.2) ""
 
 /-- the packed code the engine uses for a rules-level move (the C16 encoding, written as arithmetic) -/
-def specCode (p : Spec.SPos) (m : Spec.SMove) : Nat :=
-  if Spec.isCastle p.board m then (if m.dst = m.src + 2 then 32768 else 65536)
-  else m.src + 64 * m.dst + 4096 * m.promo
+def specCode (p : Spec.SPos) (m : Spec.SMove) : Nat := codeOf p m   -- Lemmas/Refine.lean (the code C02's theorem is about)
 
 def specMoves (p : Spec.SPos) (detail : Bool) : String :=
   let ms := Spec.legalMoves p
